@@ -126,7 +126,9 @@ PROPS = {
                      "each batch repeated with seeded yields, with the harness built with -race. Every concurrent result is emitted as an ordinary event and judged by TLC against the operation's "
                      "semantics exactly as a sequential result is, every earlier family member is re-observed after each batch (Persist), and a report of Go's race detector during a batch is an event TLC "
                      "never accepts. Absence of data races is observed by the race detector on the interleavings the scheduler produced (a happens-before analysis of the executions driven, not all "
-                     "interleavings): the level claimed is exploration.",
+                     "interleavings): the level claimed is exploration. Conc.tla states the design argument (location classes shared between derived frames, read / write sets of 21 operation "
+                     "kinds, NoRace for every pair x sharing relation; four pinned sharings must fail) and emits every (operation, operation, relation) triple, which the harness expands into a batch "
+                     "of four goroutines on real frames.",
                 note=TV_NOTE + " The data-race half rests on Go's race detector; overlap (>=2 goroutines inside an operation at once) is measured per batch and reported.",
                 technique="TLC trace validation of results computed concurrently + Go race detector on model-chosen operation multisets and sharing shapes",
                 rule="random operation multisets x sharing shapes x repetitions; non-trivial = an event of a batch in which >=2 goroutines were inside an operation simultaneously; distinct by (operation, arguments, result digest)"),
@@ -155,7 +157,8 @@ PROPS = {
     "C16": dict(mc=[dict(name="ShortDefMC", module="ShortDefMC.tla", cfg="ShortDefMC.cfg", timeout=900),
                     dict(name="ShortDefPinLow", module="ShortDefMC.tla", cfg="ShortDefPinLow.cfg", expect_violation="AgreesWrongLow")],
                 level="model_checking", nontrivial=nt_c16, trace_module="FloatTrace.tla", trace_cfg="FloatTrace.cfg",
-                text="Structured samples of binary64 (every biased exponent with mantissas 0, 1, 2, 2^52-1, 2^51, alternating bit patterns and random ones; both signs; every power of two and "
+                text="ShortDefMC.tla checks the definition used (ShortestDec.tla) against a brute-force definition - nearest representable value with ties to even, fewest digits, closest - on a toy float format, exhaustively. "
+                     "Structured samples of binary64 (every biased exponent with mantissas 0, 1, 2, 2^52-1, 2^51, alternating bit patterns and random ones; both signs; every power of two and "
                      "ten with its two neighbours; integers around 2^53; halfway decimal cases; subnormal extremes; short decimals; random bit patterns) are formatted by the real "
                      "ryu.AppendFloat64f into destination buffers with varied content, spare capacity and stale bytes, and by ToJSON of a float column. For every output TLC decides, with "
                      "arbitrary-precision integer arithmetic written in TLA+ (BigNat.tla), the mathematical definition of spec/ShortestDec.tla: the text is in the positional grammar, lies inside "
@@ -218,7 +221,8 @@ PROPS = {
                     dict(name="EnumMCPinLimit", module="EnumMC.tla", cfg="EnumMCPinLimit.cfg", expect_violation="Decodes"),
                     dict(name="EnumMCPinConst", module="EnumMC.tla", cfg="EnumMCPinConst.cfg", expect_violation="TableOK"),
                     dict(name="EnumMCEmit", module="EnumMC.tla", cfg="EnumMCEmit.cfg", emit=True, id_base=1000000)],
-                text="Enum columns with declared tables of 1..255 values in random (non-alphabetical) order, 256 and 300 values (rejected), derived enums whose cardinality reaches 253..256 "
+                text="EnumMC.tla models the enum factory (value table, strict flag, 8-bit codes with the limit as the code of null) at a limit of 3 and checks that it decodes every cell and refines EnumCol; an off-by-one at the limit and a constant path without the strict check must fail; every small input is built on the real library through New, ReadJSON and ReadCSV. "
+                     "Enum columns with declared tables of 1..255 values in random (non-alphabetical) order, 256 and 300 values (rejected), derived enums whose cardinality reaches 253..256 "
                      "and beyond, data over and outside the table, are built with New on the real library; every comparator against constants at ranks 0, 62..65, 126..129, 190..193, 253, 254 "
                      "and undeclared ones, in-lists, like, enum-enum column comparison, Sort (Reverse/NullLast), Distinct, GroupBy/Aggregate (whose key keeps table and strictness) are executed and "
                      "judged by TLC against EnumCol (Ops.tla), EnumLeaf / rank order (Clause.tla, Values.tla) and SortPost with MaxCard = 255; the same values in a string column answer alongside.",
